@@ -49,14 +49,8 @@ def run(ctx):
     # will_forward_any() is true only under filter = Some
     f = ctx.fn("darling_core::codegen::attrs_field::ForwardAttrs::<'_>::will_forward_any")
     if f:
-        for d in f.defs().get(0, []):
-            blk, i, kind, node = d
-            if f.is_cleanup(blk):
-                continue
-            e = ctx.expr(f, node["r"]) if kind == "assign" else "call"
-            if e == "false":
-                continue
-            ctx.requires("C06.G.will_forward_any", f, blk, "return " + e[:40], [r"is_some\(self\.filter\)=True"])
+        tc = ctx.true_conditions(f)
+        ctx.ob("C06.G.will_forward_any", f.key, "true result", bool(tc) and all("is_some(self.filter)=True" in d for d in tc), "true under %s" % [sorted(d) for d in tc])
     # FieldsGen::{declarations, require_fields}: only called under is_struct()
     for callee in ("darling_core::codegen::variant_data::FieldsGen::<'a>::declarations", "darling_core::codegen::variant_data::FieldsGen::<'a>::require_fields"):
         n = 0
